@@ -63,7 +63,17 @@ FOCUS6 = {
     "C14": "'every pipe that reached ADD_POST receives REM_POST no later than the return of its socket's close', notification callbacks that call back into the library (close the pipe, send, set options), and listeners under accept errors",
     "C10": "'every operation pending on the closed object then completes with NNG_ECLOSED or another terminal result, so nothing stays pending forever' for contexts, blocking calls (nng_recvmsg, nng_sendmsg, nng_dial) in other threads, and devices",
 }
+FOCUS7 = {
+    "C02": "operations that complete at submission (data already available, immediate errors, zero or already expired timeouts), 'a cancel, stop or timeout code is reported only if the operation had not already completed', nng_sleep_aio, nng_aio_set_expire, one aio object reused for different operations and objects",
+    "C11": "'malformed or truncated handshakes' (the 8-byte SP header: wrong magic, version, reserved bytes, sent slowly or partially), peers that connect and then stay silent, many hostile connections at once, 'the listener and all other connections keep working'",
+    "C15": "'whenever the library is quiescent, a descriptor polls readable if the corresponding non-blocking operation would succeed (no missed wake-up)' after pipes come and go, after NNG_OPT_SENDBUF / NNG_OPT_RECVBUF changes, and through the REQ/REP and SURVEYOR state machines",
+    "C16": "the HTTP server and client: request and response bodies with Content-Length, 'chunked body ... however it is split across reads', several requests on one connection, header and line length limits, 'returning an HTTP error status rather than delivering data'",
+    "C18": "'nng_id_map set/get/remove/visit behave as a finite map' (growth, shrink, collisions, wrap of dynamic ids, NNG_MAP_RANDOM), 'not reissued before the range wraps', and the message queues of raw sockets (SENDBUF / RECVBUF of REQ, REP, SURVEYOR, RESPONDENT raw sockets and contexts)",
+    "C20": "'during any public API call': nng_msg operations, URL parsing and cloning, option setters with strings, nng_stream dial / listen / accept, HTTP client and server objects, statistics snapshots, 'does not leave the object in a state where later calls misbehave'",
+}
 prop, tag = sys.argv[1], sys.argv[2]
+if len(sys.argv) > 3 and sys.argv[3] == "7":
+    FOCUS = FOCUS7
 if len(sys.argv) > 3 and sys.argv[3] == "6":
     FOCUS = FOCUS6
 if len(sys.argv) > 3 and sys.argv[3] == "5":
